@@ -209,6 +209,7 @@ Json genRouterSession(Rng &r, const RouterGenCfg &g) {
         std::string style = g.ortho ? "ortho" : "poly";
         auto has = [&](int k) { auto it = g.params.find(k); return it != g.params.end() && it->second > 0; };
         if (has(P_crossing) || has(P_fixedShared)) style += "+crossing-penalties";
+        if (g.touching) style += "+touching";
         if (!g.styleExtra.empty()) style += "+" + g.styleExtra;
         cfg.set("style", style);
     }
